@@ -92,6 +92,25 @@ def rule_admission_guards(ck, repo, R):
     ck.decide(re.search(r'else:  *\n?\s*for j in range\(m_atom\.from_, m_atom\.to_\):\s*\n\s*j_bond = molecule\.bonds\[j\]\s*\n\s*if j_bond\.index != n and matched\[j_bond\.index\]:\s*\n\s*break', p) is not None,
               R, 'pyx:no-extra-closures', None, '.pyx no longer rejects candidates that have closures when the pattern atom has none', file=PYX)
     ck.decide('matched[n] = True' in p and 'matched[path[i]] = False' in p, R, 'pyx:injective-bookkeeping', None, '.pyx no longer maintains the matched[] marks on push / backtrack', file=PYX)
+    # the scratch map `closures[]` is written for EVERY candidate before the count is compared: it must be cleared for every candidate too (same indentation
+    # as the comparison), not only for the ones whose count matched
+    raw = pyx_source(repo.root, PYX)
+    lines = raw.splitlines()
+
+    def indent(l):
+        return len(l) - len(l.lstrip(' '))
+    cmp_i = next((i for i, l in enumerate(lines) if 'closures_counter == q_atom.closure' in l and l.strip().startswith('if')), None)
+    fill_i = [i for i, l in enumerate(lines) if re.match(r'\s*closures\[j_bond\.index\] = j_bond\.bond', l)]
+    clear_i = [i for i, l in enumerate(lines) if re.match(r'\s*closures\[j_bond\.index\] = 0\s*$', l)]
+    ck.require(cmp_i is not None and fill_i and clear_i, '.pyx: closure scratch map fill / compare / clear statements not found')
+    # the `for` statement that encloses the clearing assignment
+    c = clear_i[0]
+    k = c
+    while k > 0 and not (lines[k].strip().startswith('for ') and indent(lines[k]) < indent(lines[c])):
+        k -= 1
+    ck.decide(c > cmp_i and indent(lines[k]) == indent(lines[cmp_i]), R, 'pyx:scratch-cleared-for-every-candidate', indent(lines[k]),
+              f'.pyx: the loop that clears closures[] (line {k + 1}) is nested under the `closures_counter == q_atom.closure` test (line {cmp_i + 1}): a candidate rejected for its closure '
+              f'count leaves its entries behind and a later candidate reads them -- closure bonds are matched onto atoms that are not bonded', file=PYX, line=k + 1)
     ck.floor(R, 18)
 
 
